@@ -330,7 +330,7 @@ struct ZoneEngine : Engine {
 		size_t nops = (size_t)(r.chance(1, 5) ? r.range(1, 6) : r.range(10, cfg.tier == "thorough" ? 300 : 200));
 		add_ops(r, m, p, nops);
 		if (r.chance(1, 5) && cfg.iopt("tool", 1))
-			p.par["tool"] = std::to_string(1 + r.below(3));
+			p.par["tool"] = std::to_string(1 + r.below(4));
 		return p;
 	}
 
@@ -693,6 +693,30 @@ struct ZoneEngine : Engine {
 			}
 			if (q.argv.size() == 5)
 				return v;
+		} else if (mode == 4) {
+			/* from the zone under test into a zone with a constant positive offset: time and printed offset */
+			if (!sparse(m))
+				return v;
+			std::string tokyo;
+			if (!real_file_bytes("/usr/share/zoneinfo/Asia/Tokyo", tokyo))
+				return v;
+			SimFile tf;
+			tf.path = "/usr/share/zoneinfo/Asia/Tokyo";
+			tf.data = tokyo;
+			q.files.push_back(tf);
+			q.argv = {"dconv", "--from-zone", "/sim/zi/Z", "--zone", "Asia/Tokyo", "-f", "%FT%T%Z"};
+			for (auto t : ts) {
+				if (t < -500000000LL)
+					continue;	/* Tokyo has been +09:00 without interruption since 1951 */
+				int64_t l = t + m.off_at(t);
+				auto S = inverse_set(m, l);
+				if (S.size() != 1 || (!m.ent.empty() && l - 16 * 3600 < m.ent.front().t))
+					continue;
+				q.argv.push_back(model::fmt_iso(l));
+				expect += model::fmt_iso(S[0] + 9 * 3600) + "+09:00\n";
+			}
+			if (q.argv.size() == 7)
+				return v;
 		} else {
 			q.argv = {"dzone", "--next", "--prev", "/sim/zi/Z", model::fmt_iso(ts[0])};
 			int64_t t = ts[0];
@@ -717,7 +741,7 @@ struct ZoneEngine : Engine {
 		RunResult r = run_plan(q);
 		st.add_probes(r);
 		if (collect)
-			st.named[mode == 1 ? "tool_dconv_zone" : mode == 2 ? "tool_dconv_from_zone" : "tool_dzone_next_prev"]++;
+			st.named[mode == 1 ? "tool_dconv_zone" : mode == 2 ? "tool_dconv_from_zone" : mode == 4 ? "tool_dconv_from_zone_to_zone" : "tool_dzone_next_prev"]++;
 		std::string cmd;
 		for (auto &a : q.argv)
 			cmd += a + " ";
@@ -731,7 +755,7 @@ struct ZoneEngine : Engine {
 		if (r.out != expect) {
 			v.ok = false;
 			v.cls = mode == 3 ? "zone/range" : mode == 2 ? "zone/inverse" : "zone/offset";
-			v.predicate = "tool_level";
+			v.predicate = std::string("tool_level") + (mode == 4 ? " from_zone_to_zone" : "");
 			v.detail = cmd + "prints " + cquote(r.out, 160) + ", the file says " + cquote(expect, 160);
 		}
 		return v;
